@@ -395,9 +395,12 @@ class _Run:
         self.marks[n] = {'line': ln, 'kind': kind, 'caught': caught}
 
     # -- statements -------------------------------------------------------------
-    def block(self, ind, ctx, depth, n):
+    def block(self, ind, ctx, depth, n, allow_empty=False):
+        k = len(self.lines)
         for _ in range(n):
             self.stmt(ind, ctx, depth)
+        if len(self.lines) == k and not allow_empty:
+            self.emit(ind, 'pass')
 
     def stmt(self, ind, ctx, depth):
         r = self.rng
@@ -489,7 +492,7 @@ class _Run:
         self.emit(ind, f"{'async ' if is_async else ''}def {name}({params.format(H=h)}){ret.format(H=h)}:")
         if r.random() < 0.2:
             self.emit(ind + 1, '"""doc"""')
-        self.block(ind + 1, {'scope': 'func', 'self': False, 'asyncf': is_async}, depth + 1, r.randint(0, 2))
+        self.block(ind + 1, {'scope': 'func', 'self': False, 'asyncf': is_async}, depth + 1, r.randint(0, 2), True)
         self.emit(ind + 1, f'return {retexpr}')
         mk = (lambda v: f'run({name}({call.format(v=v)}))') if is_async else (lambda v: f'{name}({call.format(v=v)})')
         if 'wrap' in decos:
@@ -520,7 +523,7 @@ class _Run:
             self.emit(ind, f'def {name}(cls, {params.format(H=h)}){ret.format(H=h)}:')
         else:
             self.emit(ind, f"{'async ' if kind == 'am' else ''}def {name}(self, {params.format(H=h)}){ret.format(H=h)}:")
-        self.block(ind + 1, {'scope': 'func', 'self': kind in ('m', 'am'), 'asyncf': kind == 'am'}, depth + 1, r.randint(0, 2))
+        self.block(ind + 1, {'scope': 'func', 'self': kind in ('m', 'am'), 'asyncf': kind == 'am'}, depth + 1, r.randint(0, 2), True)
         self.emit(ind + 1, f'return {retexpr}')
         if uses is not None:
             uses.append((kind, name, call, typed, good, bad, unsup))
